@@ -441,6 +441,7 @@ func init() {
 		c.Programs += nSets
 		partialMappings(c, bin, &fails)
 		externalPackages(c, bin, tmp, &fails)
+		sameNamedAcrossFiles(c, bin, tmp, &fails)
 		c.FactsVerdict(fails > 0)
 		knownMultiFileFindings(c)
 	})
@@ -580,6 +581,83 @@ func externalPackages(c *engine.Ctx, bin, tmp string, fails *int) {
 				if *fails <= 3 {
 					replay["outputs"] = res.Files
 					c.Fail("oracle", bad, replay, false)
+				}
+			}
+		}
+	}
+}
+
+// sameNamedAcrossFiles: three (or four) files that each define $defs/Item with DIFFERENT content, all written to one
+// output; one file's Item refers to another file's Item (so that the third Item is reached while the second is still
+// being generated).  Every file's Item is declared exactly once under a name of its own, and the package builds.
+// (Argument orders in which the referring file comes first are the listed finding K30.)
+func sameNamedAcrossFiles(c *engine.Ctx, bin, tmp string, fails *int) {
+	itemRe := regexp.MustCompile(`(?m)^type (Item(_\d+)?) struct`)
+	for vi, variant := range []struct {
+		refFrom, refTo string
+		orders         [][]string
+	}{
+		{"b", "c", [][]string{{"a", "b"}, {"a", "b", "c"}, {"a", "c", "b"}, {"c", "a", "b"}}},
+		{"c", "a", [][]string{{"a", "b", "c"}, {"b", "a", "c"}, {"a", "c"}}},
+		{"b", "d", [][]string{{"a", "b"}, {"a", "c", "b"}, {"a", "c", "b", "d"}}},
+	} {
+		for oi, order := range variant.orders {
+			wd := filepath.Join(tmp, fmt.Sprintf("samename%d-%d", vi, oi))
+			files := map[string]string{"go.mod": "module example.com/m\n\ngo 1.23.0\n"}
+			for _, f := range []string{"a", "b", "c", "d"} {
+				item := M{"type": "object", "properties": M{f: M{"type": "integer"}}}
+				if f == variant.refFrom {
+					item["properties"].(M)["next"] = M{"$ref": variant.refTo + ".json#/$defs/Item"}
+				}
+				files[f+".json"] = string(core.MustJSON(M{"$id": "urn:" + f, "type": "object", "properties": M{"item": M{"$ref": "#/$defs/Item"}}, "$defs": M{"Item": item}}))
+			}
+			for name, data := range files {
+				fn := filepath.Join(wd, name)
+				_ = os.MkdirAll(filepath.Dir(fn), 0o755)
+				_ = os.WriteFile(fn, []byte(data), 0o644)
+			}
+			args := []string{"-p", "example.com/m/model", "-o", "model/model.go", "--tags", "json"}
+			reached := map[string]bool{}
+			for _, f := range order {
+				args = append(args, f+".json")
+				reached[f] = true
+				if f == variant.refFrom {
+					reached[variant.refTo] = true
+				}
+			}
+			res := runCLI(bin, wd, "", args...)
+			c.Programs++
+			names := map[string]int{}
+			for _, m := range itemRe.FindAllStringSubmatch(res.Files["model/model.go"], -1) {
+				names[m[1]]++
+			}
+			bad := ""
+			if res.Exit != 0 {
+				bad = "the invocation fails: " + clip(res.Stderr, 200)
+			} else {
+				for n, k := range names {
+					if k != 1 {
+						bad = fmt.Sprintf("type %s is declared %d times", n, k)
+					}
+				}
+				if bad == "" && len(names) != len(reached) {
+					bad = fmt.Sprintf("%d files with an Item of their own are reached, %d Item types are declared (%v)", len(reached), len(names), names)
+				}
+				if bad == "" {
+					cmd := exec.Command("go", "build", "./model/...")
+					cmd.Dir = wd
+					cmd.Env = core.GoEnv()
+					if out, err := cmd.CombinedOutput(); err != nil {
+						bad = "the generated package does not build: " + clip(string(out), 300)
+					}
+				}
+			}
+			c.Eval(fmt.Sprintf("same-named-across-files|%d|%v|ok=%v", vi, order, bad == ""))
+			if bad != "" {
+				*fails++
+				if *fails <= 3 {
+					c.Fail("oracle", fmt.Sprintf("files that each define $defs/Item (%s.json's refers to %s.json's), arguments %v: %s", variant.refFrom, variant.refTo, order, bad),
+						M{"kind": "cli-multi", "files": files, "flags": args, "output": clip(res.Files["model/model.go"], 3000)}, false)
 				}
 			}
 		}
